@@ -393,6 +393,107 @@ FIXTURES = {
 }
 
 
+# ---------------------------------------------------------------- R13.4
+
+WRAPPERS = tuple(sorted(PAIRS)) + ('yr_filemap_map', 'yr_filemap_map_ex')
+OS_OPEN = ('open', 'CreateFileA', 'CreateFileW', 'fopen', 'fileno')
+
+
+def r13_4(ctx):
+    """an entry point that only acquires a resource and delegates rejects nothing of its
+    own: every return of a failure in a wrapper (file -> fd -> memory -> blocks, rules ->
+    scanner) is the failure of the acquiring call, the failure of the delegate, or a NULL
+    argument.  A rejection on any other condition (a stat() of the path, a size limit)
+    makes this entry point disagree with its siblings on inputs they accept."""
+    prog = ctx.prog
+    n_ret = 0
+    for api in WRAPPERS:
+        f0 = prog.fn(api)
+        if f0 is None:
+            ctx.require(ctx.fixture or api.startswith('yr_filemap'), 'wrapper %s not found' % api)
+            continue
+        fam = cu.family(prog, f0)
+        allowed = set(PUBLIC) | set([FUNNEL]) | set(a for a, r in PAIRS.values()) | set(OS_OPEN) | \
+            set(WRAPPERS) | set(['yr_filemap_map_fd', 'yr_scanner_create']) | set(h.name for h in fam)
+        for f in fam:
+            params = set(p['name'] for p in f.params)
+
+            def defs_of(name, f=f):
+                out = []
+                for n in f.all_nodes():
+                    if n['k'] == 'decl' and n['name'] == name and n.get('c'):
+                        out.append(cu.strip_casts(f, f.kid(n, 0)))
+                    elif n['k'] == 'bin' and n['op'] == '=':
+                        l = cu.strip_casts(f, f.kid(n, 0))
+                        if l is not None and l['k'] == 'ref' and l['name'] == name:
+                            out.append(cu.strip_casts(f, f.kid(n, 1)))
+                return out
+
+            def foreign(e, f=f, params=params, depth=0):
+                """first thing in expression e that is neither a parameter, a constant, nor the
+                result of an acquiring / delegating call; None when there is none"""
+                for x in f.walk(e):
+                    if x['k'] == 'call':
+                        if (x.get('callee') or '*') not in allowed:
+                            return x
+                    elif x['k'] == 'ref' and x.get('dk') in ('local',):
+                        if depth > 2:
+                            continue
+                        for d in defs_of(x['name']):
+                            if d is None:
+                                continue
+                            if d['k'] == 'call':
+                                if (d.get('callee') or '*') not in allowed:
+                                    return d
+                            elif cu.const_of(d) is None:
+                                r = foreign(d, depth=depth + 1)
+                                if r is not None:
+                                    return r
+                return None
+            for n in f.all_nodes():
+                if n['k'] != 'ret' or not n.get('c'):
+                    continue
+                e = cu.strip_casts(f, f.kid(n, 0))
+                if e is not None and cu.const_of(e) == 0:
+                    continue
+                n_ret += 1
+                why = foreign(e)
+                child = n
+                if why is None:
+                    for a in f.ancestors(n):
+                        if a['k'] == 'if':
+                            cnd = f.kid(a, 0)
+                            why = foreign(cnd)
+                            if why is not None:
+                                break
+                            # a test of the arguments alone may only reject NULL
+                            refs = [x for x in f.walk(cnd) if x['k'] == 'ref']
+                            calls = [x for x in f.walk(cnd) if x['k'] == 'call']
+                            if refs and not calls and all(x.get('dk') == 'param' for x in refs):
+                                for x in f.walk(cnd):
+                                    if x['k'] == 'bin' and x['op'] in ('<', '>', '<=', '>=', '&', '==', '!='):
+                                        if x['op'] in ('==', '!=') and 0 in (
+                                                cu.const_of(cu.strip_casts(f, f.kid(x, 0))),
+                                                cu.const_of(cu.strip_casts(f, f.kid(x, 1)))):
+                                            continue
+                                        why = x
+                                        break
+                                if why is not None:
+                                    break
+                key = '%s:return@%s:only-acquisition-or-delegate-failures' % (f.name, _ordinal(f, n))
+                ctx.ob('R13.4', key, why is None, f.loc(n),
+                       'this return hands on the failure of the acquiring call, of the delegate, or '
+                       'rejects a NULL argument' if why is None else
+                       '%s fails here on `%s`, a condition of its own: inputs its sibling entry points '
+                       'scan are rejected by this one' % (api, f.show(why)[:70]))
+    ctx.count('wrapper_failure_returns', n_ret)
+
+
+def _ordinal(f, n):
+    rets = sorted((x.get('l', 0), x['i']) for x in f.all_nodes() if x['k'] == 'ret')
+    return rets.index((n.get('l', 0), n['i']))
+
+
 def run(ctx):
     r13_1(ctx)
     ctx.floor('R13.1', 14)
@@ -400,3 +501,5 @@ def run(ctx):
     ctx.floor('R13.2', 7)
     r13_3(ctx)
     ctx.floor('R13.3', 8)
+    r13_4(ctx)
+    ctx.floor('R13.4', 10)
